@@ -129,7 +129,25 @@ func c29DrawCluster(t *rapid.T) *c29Cluster {
 
 // ---------------------------------------------------------------- policy generator
 
-func c29DrawSelector(t *rapid.T, keys []string, label string) *metav1.LabelSelector {
+// c29DrawKV draws a label key/value, half of the time taken from an existing object's labels (hints) so that
+// selectors match something often enough.
+func c29DrawKV(t *rapid.T, keys []string, hints []map[string]string, label string) (string, string) {
+	if len(hints) > 0 && rapid.Bool().Draw(t, label+":fromExisting") {
+		h := hints[rapid.IntRange(0, len(hints)-1).Draw(t, label+":hintObj")]
+		var hk []string
+		for k := range h {
+			hk = append(hk, k)
+		}
+		sort.Strings(hk)
+		if len(hk) > 0 {
+			k := rapid.SampledFrom(hk).Draw(t, label+":hintKey")
+			return k, h[k]
+		}
+	}
+	return rapid.SampledFrom(keys).Draw(t, label+":key"), rapid.SampledFrom(c29Values).Draw(t, label+":val")
+}
+
+func c29DrawSelector(t *rapid.T, keys []string, hints []map[string]string, label string) *metav1.LabelSelector {
 	s := &metav1.LabelSelector{}
 	switch rapid.IntRange(0, 5).Draw(t, label+":selShape") {
 	case 0:
@@ -138,20 +156,28 @@ func c29DrawSelector(t *rapid.T, keys []string, label string) *metav1.LabelSelec
 		s.MatchLabels = map[string]string{}
 		n := rapid.IntRange(1, 2).Draw(t, label+":nMatchLabels")
 		for i := 0; i < n; i++ {
-			s.MatchLabels[rapid.SampledFrom(keys).Draw(t, label+":mlKey")] = rapid.SampledFrom(c29Values).Draw(t, label+":mlVal")
+			k, v := c29DrawKV(t, keys, hints, label+":ml")
+			s.MatchLabels[k] = v
 		}
 	}
-	if len(s.MatchLabels) == 0 || rapid.Bool().Draw(t, label+":alsoExpr") {
-		n := rapid.IntRange(1, 2).Draw(t, label+":nExpr")
+	if len(s.MatchLabels) == 0 || rapid.IntRange(0, 2).Draw(t, label+":alsoExpr") == 0 {
+		n := rapid.SampledFrom([]int{1, 1, 2}).Draw(t, label+":nExpr")
 		for i := 0; i < n; i++ {
+			k, v := c29DrawKV(t, keys, hints, label+":expr")
 			e := metav1.LabelSelectorRequirement{
-				Key: rapid.SampledFrom(keys).Draw(t, label+":exprKey"),
+				Key: k,
 				Operator: rapid.SampledFrom([]metav1.LabelSelectorOperator{
 					metav1.LabelSelectorOpIn, metav1.LabelSelectorOpNotIn, metav1.LabelSelectorOpExists, metav1.LabelSelectorOpDoesNotExist,
 				}).Draw(t, label+":op"),
 			}
 			if e.Operator == metav1.LabelSelectorOpIn || e.Operator == metav1.LabelSelectorOpNotIn {
-				e.Values = rapid.SliceOfNDistinct(rapid.SampledFrom(c29Values), 1, 2, rapid.ID[string]).Draw(t, label+":exprVals")
+				e.Values = []string{v}
+				if rapid.Bool().Draw(t, label+":secondValue") {
+					v2 := rapid.SampledFrom(c29Values).Draw(t, label+":exprVal2")
+					if v2 != v {
+						e.Values = append(e.Values, v2)
+					}
+				}
 			}
 			s.MatchExpressions = append(s.MatchExpressions, e)
 		}
@@ -159,12 +185,26 @@ func c29DrawSelector(t *rapid.T, keys []string, label string) *metav1.LabelSelec
 	return s
 }
 
-func c29DrawNSSelector(t *rapid.T, cl *c29Cluster, label string) *metav1.LabelSelector {
-	if rapid.IntRange(0, 4).Draw(t, label+":byName") == 0 {
-		return &metav1.LabelSelector{MatchLabels: map[string]string{
-			"kubernetes.io/metadata.name": rapid.SampledFrom(cl.NSNames).Draw(t, label+":nsName")}}
+func (cl *c29Cluster) podHints(ns string) []map[string]string {
+	var out []map[string]string
+	for _, p := range cl.Pods {
+		if ns == "" || p.NS == ns {
+			out = append(out, p.Labels)
+		}
 	}
-	return c29DrawSelector(t, c29NSKeys[:2], label)
+	return out
+}
+
+func (cl *c29Cluster) nsHints() []map[string]string {
+	var out []map[string]string
+	for _, ns := range cl.NSNames {
+		out = append(out, cl.NSLabels[ns])
+	}
+	return out
+}
+
+func c29DrawNSSelector(t *rapid.T, cl *c29Cluster, label string) *metav1.LabelSelector {
+	return c29DrawSelector(t, c29NSKeys, cl.nsHints(), label)
 }
 
 type c29Block struct {
@@ -184,12 +224,12 @@ var c29Blocks = []c29Block{
 func c29DrawPeer(t *rapid.T, cl *c29Cluster, label string) (networkingv1.NetworkPolicyPeer, string) {
 	switch rapid.SampledFrom([]string{"pod", "pod", "ns", "both", "both", "ipBlock", "ipBlock"}).Draw(t, label+":peerKind") {
 	case "pod":
-		return networkingv1.NetworkPolicyPeer{PodSelector: c29DrawSelector(t, c29PodKeys, label+":pod")}, "P"
+		return networkingv1.NetworkPolicyPeer{PodSelector: c29DrawSelector(t, c29PodKeys, cl.podHints(""), label+":pod")}, "P"
 	case "ns":
 		return networkingv1.NetworkPolicyPeer{NamespaceSelector: c29DrawNSSelector(t, cl, label+":ns")}, "N"
 	case "both":
 		return networkingv1.NetworkPolicyPeer{
-			PodSelector:       c29DrawSelector(t, c29PodKeys, label+":pod"),
+			PodSelector:       c29DrawSelector(t, c29PodKeys, cl.podHints(""), label+":pod"),
 			NamespaceSelector: c29DrawNSSelector(t, cl, label+":ns"),
 		}, "B"
 	default:
@@ -275,7 +315,9 @@ func c29DrawPolicy(t *rapid.T, cl *c29Cluster) (*networkingv1.NetworkPolicy, str
 		ObjectMeta: metav1.ObjectMeta{Name: "np", Namespace: rapid.SampledFrom(cl.NSNames[:2]).Draw(t, "policyNamespace"),
 			UID: types.UID("30316465-6365-4463-ad63-3564622d3638")},
 	}
-	np.Spec.PodSelector = *c29DrawSelector(t, c29PodKeys, "podSelector")
+	if rapid.IntRange(0, 3).Draw(t, "podSelectorEmpty") != 0 {
+		np.Spec.PodSelector = *c29DrawSelector(t, c29PodKeys, cl.podHints(np.Namespace), "podSelector")
+	}
 	shape := ""
 	kind := rapid.SampledFrom([]string{"I", "E", "IE", "IE", "implicit"}).Draw(t, "policyTypes")
 	switch kind {
@@ -290,7 +332,7 @@ func c29DrawPolicy(t *rapid.T, cl *c29Cluster) (*networkingv1.NetworkPolicy, str
 		}
 	}
 	shape += kind + ";"
-	ni := rapid.IntRange(0, 3).Draw(t, "nIngress")
+	ni := rapid.SampledFrom([]int{0, 1, 1, 2, 2, 3}).Draw(t, "nIngress")
 	for i := 0; i < ni; i++ {
 		peers, ports, s := c29DrawRule(t, cl, fmt.Sprintf("in%d", i))
 		np.Spec.Ingress = append(np.Spec.Ingress, networkingv1.NetworkPolicyIngressRule{From: peers, Ports: ports})
@@ -300,7 +342,7 @@ func c29DrawPolicy(t *rapid.T, cl *c29Cluster) (*networkingv1.NetworkPolicy, str
 	// present), so an object with egress rules but no policyTypes cannot reach the converter: "implicit"
 	// is only generated without egress rules.
 	if kind != "implicit" {
-		ne := rapid.IntRange(0, 3).Draw(t, "nEgress")
+		ne := rapid.SampledFrom([]int{0, 1, 1, 2, 2, 3}).Draw(t, "nEgress")
 		for i := 0; i < ne; i++ {
 			peers, ports, s := c29DrawRule(t, cl, fmt.Sprintf("eg%d", i))
 			np.Spec.Egress = append(np.Spec.Egress, networkingv1.NetworkPolicyEgressRule{To: peers, Ports: ports})
